@@ -16,7 +16,7 @@
      port_out, port_ramp    = the notes and glides of mode 0 (below)
      note_count l           = number of NoteOn events of l *)
 From Sakura.Model Require Import Base Event Song F32 Tie RunCore Compile.
-From Sakura.Proofs Require Import ExtP TieP.
+From Sakura.Proofs Require Import ExtP TieP TieAccP.
 From Coq Require Import Sorted.
 
 (* runs = the group cut into consecutive non-empty blocks of one pitch, neighbouring blocks of different
@@ -207,6 +207,98 @@ Theorem C13_flush_at_end : forall s : song,
           tr_events (check_tie_notes (s_timebase s) t) = tr_events t ++ [e]).
 Proof. exact flush_at_end. Qed.
 
+(* ---- accuracy of the f32 expressions (proofs/TieAccP.v: from the IEEE binary32 rounding-error bound of each
+   operation and the grid of its result, no evaluation over a finite domain) ----
+
+   Slur(1): (d as f32 * 8192f32 / R as f32) as isize is EXACTLY the truncated quotient, for every difference a
+   product with 8192 keeps below 2^24 and every range below 2^24 (the product is exact, the division is rounded
+   once, and that rounding cannot cross an integer: the quotient of two integers below 2^24 is at least 1/R away
+   from the next integer above it and the rounding error is below 1/R).  Generalises C13_bend_value_range12. *)
+Theorem C13_bend_value_exact : forall d R : Z, Z.abs d <= 2047 -> 0 < R < 2 ^ 24 ->
+  bend_value d R = value_range 0 (Z.quot (d * 8192) R + 8192) 16383.
+Proof. exact bend_value_exact. Qed.
+
+(* in the units of the property, for a bend inside the range (|d| <= R): the emitted value v is 8192 + trunc(8192 d / R),
+   |v - (8192 + 8192 d / R)| <= 1 (written v R against 8192 R + 8192 d); a full range up (d = R, exact value 16384)
+   is the 14-bit maximum 16383 *)
+Theorem C13_bend_value_exact_or_close : forall d R : Z, Z.abs d <= 2047 -> 0 < R < 2 ^ 24 -> - R <= d <= R ->
+  (d < R -> bend_value d R = Z.quot (d * 8192) R + 8192) /\ (d = R -> bend_value d R = 16383) /\
+  Z.abs (bend_value d R * R - (8192 * R + 8192 * d)) <= R.
+Proof. exact bend_value_close. Qed.
+
+(* Slur(0), the target of a glide, (d as f32 * (8192f32 / R as f32)) as isize - here 8192 / R is rounded before the
+   multiplication: the target has the sign of d, lies between 0 and the exact value 8192 d / R and within 1 of it
+   (|bf| R against 8192 |d|); it is the truncated quotient whenever R does not divide 8192 d, and always at the range
+   12 (the only range a track ever gets: runner.rs sets bend_range to 12 and nothing else does).  It is NOT always
+   the truncated quotient: C13_accuracy_tight. *)
+Theorem C13_bend_from_accuracy : forall d R : Z, Z.abs d <= 127 -> 1 <= R <= 8192 ->
+  (0 <= d -> 0 <= bend_from d R) /\ (d <= 0 -> bend_from d R <= 0) /\
+  Z.abs d * 8192 - R <= Z.abs (bend_from d R) * R <= Z.abs d * 8192.
+Proof. exact bend_from_accuracy. Qed.
+Theorem C13_bend_from_exact : forall d R : Z, Z.abs d <= 127 -> 1 <= R <= 8192 ->
+  (d * 8192) mod R <> 0 -> bend_from d R = Z.quot (d * 8192) R.
+Proof. exact bend_from_exact. Qed.
+Theorem C13_bend_from_range12 : forall d : Z, -127 <= d <= 127 -> bend_from d 12 = Z.quot (d * 8192) 12.
+Proof. exact bend_from_12. Qed.
+
+(* Slur(0,tv), step j of the glide, (bf as f32 * (j as f32 / tv as f32)) as isize (C13_mode_port_ramp: the event at
+   tick start(h') - tv + j carries this value + 8192, clamped): for a target |bf| < 2^b and 2^b * tv < 2^24
+   (tv <= 1023 for targets up to 8192 = a glide within the bend range; tv <= 127 for any two notes at range 12)
+   the value has the sign of bf, lies between 0 and the line bf j / tv and within 1 of it - it is the exact value
+   truncated toward 0, or one nearer to 0 when the exact value is an integer (this happens: C13_accuracy_tight, so
+   `< 1` would be false) *)
+Theorem C13_port_ramp_accuracy : forall b bf j tv : Z,
+  0 <= b -> Z.abs bf < 2 ^ b -> 0 <= j < tv -> 2 ^ b * tv < 2 ^ 24 ->
+  (0 <= bf -> 0 <= port_v bf j tv) /\ (bf <= 0 -> port_v bf j tv <= 0) /\
+  Z.abs bf * j - tv <= Z.abs (port_v bf j tv) * tv <= Z.abs bf * j.
+Proof. exact port_accuracy. Qed.
+Theorem C13_port_ramp_accuracy_exact : forall b bf j tv : Z,
+  0 <= b -> Z.abs bf < 2 ^ b -> 0 <= j < tv -> 2 ^ b * tv < 2 ^ 24 ->
+  (bf * j) mod tv <> 0 -> port_v bf j tv = Z.quot (bf * j) tv.
+Proof. exact port_accuracy_exact. Qed.
+
+(* any glide length below 2^24 (the lengths up to which `tv as f32` is exact): |y| - 1 - e < |v| <= |y| + e with
+   y = bf j / tv and e = 2^(b-24) (e < 0.001 for b = 14), v still on the side of bf.  `<= 1` and `between 0 and the
+   line` do fail for long glides: C13_accuracy_tight. *)
+Theorem C13_port_ramp_accuracy_any_len : forall b bf j tv : Z,
+  0 <= b <= 23 -> Z.abs bf < 2 ^ b -> 0 <= j < tv -> tv < 2 ^ 24 ->
+  (0 <= bf -> 0 <= port_v bf j tv) /\ (bf <= 0 -> port_v bf j tv <= 0) /\
+  (Z.abs (port_v bf j tv) * tv - Z.abs bf * j) * 2 ^ 24 <= 2 ^ b * tv /\
+  (Z.abs bf * j - (Z.abs (port_v bf j tv) + 1) * tv) * 2 ^ 24 < 2 ^ b * tv.
+Proof. exact port_accuracy_any. Qed.
+
+(* the end points: step 0 has the value 0 (bend 8192, the centre; it equals the initial `last_v` and is not written);
+   no step goes beyond the target bf - the last step tv - 1 is about bf (tv - 1) / tv by the theorems above, the
+   target itself is never written: the event at start(h') is bend 8192 again (C13_mode_port_unfold), where the next
+   note sounds at its own pitch *)
+Theorem C13_port_ramp_ends : forall bf j tv : Z, Z.abs bf < 2 ^ 23 -> 0 <= j < tv -> tv < 2 ^ 24 ->
+  port_v bf 0 tv = 0 /\ (bf <> 0 -> Z.abs (port_v bf j tv) <= Z.abs bf).
+Proof. exact port_ends. Qed.
+
+(* the events of a glide between two notes d semitones apart, d within the bend range R, over at most 1023 ticks:
+   none at step 0, none clamped, each within 1 of the line from 8192 to 8192 + bend_from d R and within 2 of the
+   ideal line from 8192 to 8192 + 8192 d / R at its tick *)
+Theorem C13_port_ramp_events : forall (ch tv R : Z) (h h' : event),
+  let d := e_v1 h' - e_v1 h in
+  Z.abs d <= 127 -> 1 <= R <= 8192 -> Z.abs d <= R -> tv <= 1023 ->
+  Forall (fun e => exists j, 1 <= j < tv /\ e = ev_pitch_bend (e_time h' - tv + j) ch (port_v (bend_from d R) j tv + 8192) /\
+            Z.abs ((e_v1 e - 8192) * tv - bend_from d R * j) <= tv /\
+            Z.abs ((e_v1 e - 8192) * (R * tv) - 8192 * d * j) <= 2 * (R * tv))
+         (port_ramp ch tv R h h').
+Proof. exact port_ramp_events. Qed.
+
+(* what is false: the natural stronger statements, each with its witness (values confirmed on the implementation's f32
+   arithmetic: harness kind f32ops, and `Slur(0,10360) [30 r1] l4 c&b`, `Slur(0,4097) [12 r1] l4 c&>c`) *)
+Theorem C13_bend_from_quot_refuted :
+  ~ (forall d R, Z.abs d <= 127 -> 1 <= R <= 8192 -> bend_from d R = Z.quot (d * 8192) R).
+Proof. exact bend_from_quot_refuted. Qed.
+Theorem C13_port_ramp_within1_refuted :
+  ~ (forall bf j tv, Z.abs bf <= 8192 -> 0 <= j < tv -> tv < 2 ^ 24 -> Z.abs (port_v bf j tv * tv - bf * j) <= tv).
+Proof. exact port_within1_refuted. Qed.
+Theorem C13_port_ramp_below_line_refuted :
+  ~ (forall bf j tv, Z.abs bf <= 8192 -> 0 <= j < tv -> tv < 2 ^ 24 -> Z.abs (port_v bf j tv * tv) <= Z.abs (bf * j)).
+Proof. exact port_below_line_refuted. Qed.
+
 (* ---- non-vacuity: concrete groups (timebase 96, quarter notes at gate 90%) ---- *)
 Definition ex_track (mode tv br : Z) (g : list event) : track :=
   tr_set_tie (tr_set_timepos (track_new 96 0) 384) mode tv br [ev_voice 0 0 4] g.
@@ -284,6 +376,31 @@ Example C13_example_flush :
   tracks_for_writer (ex_song [nt 288 60 86]) = [[ev_voice 0 0 4; nt 288 60 86]].
 Proof. vm_compute. reflexivity. Qed.
 
+(* accuracy: instances, and the bounds are tight.
+   - mode 1: 5 semitones at range 7 -> 8192 + trunc(40960 / 7) = 14043; a full range up is clamped to 16383
+   - the target of a glide at range 41 over 41 semitones is 8191, not 8192 (8192 / 41 is rounded down first)
+   - distance exactly 1 on a short glide: `Slur(0,22) l4 c&c+` (target 682, step 13 of 22: the line passes through 403,
+     the value is 402 - the implementation writes bend 8594 at tick 87)
+   - long glides: 11 semitones at range 12 over 10360 ticks, step 5309: line 3848.00009, value 3847 (more than 1 below);
+     an octave over 4097 ticks, step 2049: line 4096.9998, value 4097 (beyond the line) *)
+Example C13_accuracy_tight :
+  (Z.abs 5 <= 2047 /\ 0 < 7 < 2 ^ 24 /\ bend_value 5 7 = 14043 /\ Z.quot (5 * 8192) 7 + 8192 = 14043) /\
+  bend_value 7 7 = 16383 /\ bend_value (-7) 7 = 0 /\
+  (bend_from 41 41 = 8191 /\ 41 * 8192 = 8192 * 41) /\ bend_from 1 12 = 682 /\ bend_from (-11) 12 = -7509 /\
+  (port_v 682 13 22 = 402 /\ 682 * 13 = 403 * 22 /\ 2 ^ 10 * 22 < 2 ^ 24) /\
+  (port_v 7509 5309 10360 = 3847 /\ 3847 * 10360 < 7509 * 5309 - 10360) /\
+  (port_v 8192 2049 4097 = 4097 /\ 8192 * 2049 < 4097 * 4097) /\
+  port_v (-682) 5 7 = -487 /\ (-682 * 5) mod 7 <> 0 /\ Z.quot (-682 * 5) 7 = -487.
+Proof. vm_compute. repeat split; try reflexivity; discriminate. Qed.
+
+(* the glide of C13_example_port again, by C13_port_ramp_events: 2 semitones at range 12 over 4 ticks *)
+Example C13_example_port_events :
+  (Z.abs (62 - 60) <= 127 /\ 1 <= 12 <= 8192 /\ Z.abs (62 - 60) <= 12 /\ 4 <= 1023) /\
+  bend_from (62 - 60) 12 = 1365 /\
+  map (fun j => port_v 1365 j 4 + 8192) [1; 2; 3] = [8533; 8874; 9215] /\
+  map (fun j => Z.quot (1365 * j) 4 + 8192) [1; 2; 3] = [8533; 8874; 9215].
+Proof. vm_compute. repeat split; discriminate. Qed.
+
 Print Assumptions C13_runs_maximal.
 Print Assumptions C13_same_pitch_merge.
 Print Assumptions C13_mode_gate.
@@ -300,3 +417,16 @@ Print Assumptions C13_frame.
 Print Assumptions C13_pointer.
 Print Assumptions C13_group.
 Print Assumptions C13_flush_at_end.
+Print Assumptions C13_bend_value_exact.
+Print Assumptions C13_bend_value_exact_or_close.
+Print Assumptions C13_bend_from_accuracy.
+Print Assumptions C13_bend_from_exact.
+Print Assumptions C13_bend_from_range12.
+Print Assumptions C13_port_ramp_accuracy.
+Print Assumptions C13_port_ramp_accuracy_exact.
+Print Assumptions C13_port_ramp_accuracy_any_len.
+Print Assumptions C13_port_ramp_ends.
+Print Assumptions C13_port_ramp_events.
+Print Assumptions C13_bend_from_quot_refuted.
+Print Assumptions C13_port_ramp_within1_refuted.
+Print Assumptions C13_port_ramp_below_line_refuted.
